@@ -221,8 +221,8 @@ package state
 //@   modifies nothing
 //@   havoc F|state.EncryptionSession, F|state.SequenceHandler, F|sync/atomic.Uint32
 //@ func EncryptionSession.DeriveSessionFromKX
-//@   option trusted
 //@   modifies nothing
+//@   havoc F|state.EncryptionSession, F|state.SequenceHandler, F|sync/atomic.Uint32
 //@   ensures derived: result1 == nil ==> result0 != nil
 
 //@ func Session.SetTunMTU
